@@ -184,7 +184,9 @@ func Build(ps []Pos, o Opts) *State {
 				p := Pos{d, v, a}
 				var sh math.LegacyDec
 				if o.UnitPrice {
-					sh = math.LegacyNewDecFromInt(nd.IntRange("tok_"+p.name(), "1", o.MaxTok))
+					tk := nd.IntRange("tok_"+p.name(), "1", o.MaxTok)
+					nd.Hint(tk.Equal(math.NewInt(int64(1000 * (1 + d + 2*v))))) // regime for concrete witnesses only
+					sh = math.LegacyNewDecFromInt(tk)
 				} else {
 					sh = nd.DecRange("sh_"+p.name(), "0.000000000000000001", maxShares)
 				}
